@@ -3082,7 +3082,7 @@ func (dsc *dataStoreCommand) sort(sourceKeyName, byPattern, destKeyName string, 
 			vals = make([]sortVal, 0, ss.count)
 			for i := ss.createIterator(); i.next(); {
 				sv := sortVal{
-					data: i.value.(string),
+					data: i.key,
 				}
 				vals = append(vals, sv)
 			}
@@ -3093,7 +3093,21 @@ func (dsc *dataStoreCommand) sort(sourceKeyName, byPattern, destKeyName string, 
 	}
 
 	dontSort := false
-	if byPattern != "" {
+	if byPattern == "" {
+		// without BY the elements themselves are the sort keys
+		for idx, val := range vals {
+			val.sortByStr = val.data
+			if !alpha {
+				f64, parseErr := strconv.ParseFloat(val.data, 64)
+				if parseErr != nil {
+					output.data = respErrorString("ERR One or more scores can't be converted into double")
+					return
+				}
+				val.sortByFloat = f64
+			}
+			vals[idx] = val
+		}
+	} else {
 		if !strings.Contains(byPattern, "*") {
 			dontSort = true
 		} else {
@@ -3120,31 +3134,21 @@ func (dsc *dataStoreCommand) sort(sourceKeyName, byPattern, destKeyName string, 
 	}
 
 	if !dontSort {
-		// pick a sorting strategy
-		if alpha {
-			if !desc {
-				// asc alpha
-				sort.Slice(vals, func(i, j int) bool {
-					return vals[i].sortByStr < vals[j].sortByStr
-				})
-			} else {
-				// desc alpha
-				sort.Slice(vals, func(i, j int) bool {
-					return vals[j].sortByStr < vals[i].sortByStr
-				})
+		// equal sort keys are ordered by the element itself, as in redis
+		less := func(a, b *sortVal) bool {
+			if alpha {
+				if a.sortByStr != b.sortByStr {
+					return a.sortByStr < b.sortByStr
+				}
+			} else if a.sortByFloat != b.sortByFloat {
+				return a.sortByFloat < b.sortByFloat
 			}
+			return a.data < b.data
+		}
+		if !desc {
+			sort.Slice(vals, func(i, j int) bool { return less(&vals[i], &vals[j]) })
 		} else {
-			if !desc {
-				// asc numeric
-				sort.Slice(vals, func(i, j int) bool {
-					return vals[i].sortByFloat < vals[j].sortByFloat
-				})
-			} else {
-				// desc numeric
-				sort.Slice(vals, func(i, j int) bool {
-					return vals[j].sortByFloat < vals[i].sortByFloat
-				})
-			}
+			sort.Slice(vals, func(i, j int) bool { return less(&vals[j], &vals[i]) })
 		}
 	}
 
@@ -3202,6 +3206,12 @@ func (dsc *dataStoreCommand) sort(sourceKeyName, byPattern, destKeyName string, 
 	}
 
 	if destKeyName != "" {
+		// the result replaces whatever the destination held; an empty result deletes it
+		dsc.ds.data.remove(destKeyName)
+		if len(a) == 0 {
+			output.data = respInt(0)
+			return
+		}
 		list := dsc.newListUnlocked(destKeyName)
 
 		for _, element := range a {
